@@ -1,5 +1,7 @@
 import Driver.Loop
 import SquidModel.Udp.Snmp
+import SquidModel.Udp.Icp
+import SquidModel.Udp.Htcp
 open SquidModel SquidModel.Udp SquidModel.Gen.UdpLimits
 
 namespace Driver.C39
@@ -28,8 +30,48 @@ def showSnmp (r : T Msg) (len : Nat) : String :=
     let vars := String.join (p.vars.map showVar)
     s!"ok ver={msg.version} comm={Bytes.toHex msg.community} cmd={p.command} reqid={p.reqid} es={p.errstat} ei={p.errindex} nr={p.nonRepeaters} mr={p.maxRepetitions} co={(coexist p).1} vars={p.vars.length}{vars} over={over r.hi len}"
 
+def showUrlErr : Icp.UrlErr → String
+  | .small => "url:small"
+  | .unterminated => "url:unterminated"
+  | .embedded => "url:embedded"
+
+def showIcp (r : Icp.Result) (len : Nat) : String :=
+  let mid := match r.outcome with
+    | .nothing => ""
+    | .ignoreShort => " ignore:short"
+    | .ignoreVersion => " ignore:version"
+    | .badLen => " badlen"
+    | .queryBadUrl e => " " ++ showUrlErr e ++ " sent=4/" ++ toString (Icp.replyLength false 0) ++ "/" ++ "-"
+    | .query u => s!" url={Bytes.toHex u}"
+    | .replyBadUrl e => s!" {showUrlErr e}"
+    | .reply u => s!" reply-url={Bytes.toHex u}"
+    | .nop => ""
+    | .unknownOp => " unknown-op"
+  s!"v={r.version}{mid} over={over (max r.rdHi r.wrHi) len} wr={over r.wrHi len}"
+
+def showHtcp (r : Htcp.St × Option Nat) (m0 : Mem) (len : Nat) : String :=
+  let s := r.1
+  let toks := s.toks.reverse
+  let sz := match r.2 with | some n => toString n | none => "?"
+  let ch := Htcp.changed m0 s.mem 0
+  let nul := if ch.isEmpty then "-" else ",".intercalate (ch.map toString)
+  let pre := if toks.isEmpty then "" else " ".intercalate toks
+  s!"{pre} sz={sz} nul={nul} over={over (max s.rdHi s.wrHi) len} wr={over s.wrHi len}"
+
 def handle (line : String) : String :=
   match Driver.words line with
+  | ["i", dg, stale] =>
+    match Bytes.ofHex dg, Bytes.ofHex stale with
+    | some d, some t =>
+      let (m, len) := Icp.icpMem d t
+      showIcp (Icp.handle m len) len
+    | _, _ => "bad-input"
+  | ["h", dg, stale, flags] =>
+    match Bytes.ofHex dg, Bytes.ofHex stale with
+    | some d, some t =>
+      let (m, len) := Htcp.htcpMem d t
+      showHtcp (Htcp.handleMsg m len (flags.contains 'm' && len ≥ 12)) m len
+    | _, _ => "bad-input"
   | ["s", dg, tail] =>
     match Bytes.ofHex dg, Bytes.ofHex tail with
     | some d, some t =>
